@@ -726,6 +726,11 @@ class SpecialPointsTable:
                     got = int(np.sum(d < d.min() + 1e-9 * np.linalg.norm(b[0])))
                     if got != cnt:
                         bad.append(dict(lattice=lat, cell_scale=scale, point=nm, equidistant_nearest_reciprocal_lattice_points=got, textbook=cnt))
+                    # the tabulated representative lies IN the (closed) first Brillouin zone: no reciprocal-lattice point is nearer to it than the origin.
+                    # A band path is the straight line between the tabulated representatives, so another image of the same point gives another path.
+                    if np.linalg.norm(k) > d.min() + 1e-9 * np.linalg.norm(b[0]):
+                        bad.append(dict(lattice=lat, cell_scale=scale, point=nm, problem="the tabulated representative lies outside the first Brillouin zone",
+                                        distance_from_origin=float(np.linalg.norm(k)), distance_to_nearest_reciprocal_lattice_point=float(d.min())))
         return bad, n
 
     def __call__(self, ob, tier, seed):
